@@ -366,7 +366,8 @@ EXTRA4 = {
            "over the pub flags of all three levels.",
     "C10": "Templates whose hole stands inside the binder's own definition (let, function-valued let, letrec that does not call itself).",
     "C19": "Rounds in which all eight threads are consumers of the compiler's counters (fresh temporaries of the staging translation "
-           "in lets over 16 sibling nested tuple patterns, type variables of many let-polymorphic definitions).",
+           "in lets over 16 sibling nested tuple patterns, type variables of many let-polymorphic definitions). An observation that differs "
+           "from the solo one is confirmed by running its round again 40 times before it is reported.",
 }
 for _pid, _t in EXTRA4.items():
     if _pid in CLAIMED:
